@@ -28,7 +28,7 @@ VALS = [0, 1, 2]
 # none holds two values that are equal in Python and different as JSON (that is the dependency's
 # open assignment finding, injected separately)
 POOLS = [[0, 1, 2], [0, 1, 2], [None, "x", 1], [False, "", 2], [1.5, "a b", None], [0, None, "0"]]
-FILES = ["f1", "f2", "sub/g"]
+FILES = ["f1", "f2", "sub/g", ".h", "sub/.g"]
 
 _FAMILY = {}
 
